@@ -52,16 +52,25 @@ class FakeNetaddr:
         if k == 'TypeError':
             raise TypeError('unsupported type')
 
-    def valid_ipv4(self, addr, flags=0):
+    # every entry point accepts any further arguments and records them: a
+    # caller that switches on a parsing option (flags, expand_partial, ...)
+    # no longer asks netaddr the documented question
+    def valid_ipv4(self, addr, *args, **kw):
+        self.options = getattr(self, 'options', []) + [('valid_ipv4', args,
+                                                        kw)]
         self._outcome('valid_ipv4', allow_type_error=False)
         return fresh_bool('valid_ipv4_result_%d' % self.n)
 
-    def valid_ipv6(self, addr, flags=0):
+    def valid_ipv6(self, addr, *args, **kw):
+        self.options = getattr(self, 'options', []) + [('valid_ipv6', args,
+                                                        kw)]
         self.seen = getattr(self, 'seen', []) + [addr]
         self._outcome('valid_ipv6', allow_type_error=False)
         return fresh_bool('valid_ipv6_result_%d' % self.n)
 
-    def IPNetwork(self, addr, version=None):
+    def IPNetwork(self, addr, *args, **kw):
+        self.options = getattr(self, 'options', []) + [('IPNetwork', args,
+                                                        kw)]
         self._outcome('IPNetwork')
         return FakeNetwork(self)
 
@@ -178,6 +187,8 @@ def cidr_requires_a_nonempty_prefix_part():
               has_slash and strlen(second) > 0)
         check('cidr/accepted-was-parsed-by-netaddr',
               na.calls == ['IPNetwork'])
+        check('cidr/parsed-with-netaddr-defaults',
+              na.options == [('IPNetwork', (), {})])
     else:
         check('cidr/rejected', True)
 
@@ -455,7 +466,9 @@ def address_grammar_family():
                 check('family/ipv6-scope-id-1-to-15',
                       bool(got) == (std_v6(a) and 1 <= k <= 15),
                       detail=(s, got))
-    bases4 = ['10.0.0.0', '192.168.1.1', '1.2.3', '256.0.0.0', '']
+    bases4 = ['10.0.0.0', '192.168.1.1', '1.2.3', '256.0.0.0', '',
+              # abbreviated networks: not CIDR notation (ipaddress agrees)
+              '10', '10.0', '192.168', '10.0.0', '010', '0x0a.0.0.0']
     bases6 = ['2001:db8::', '::', 'fe80::1', '1:2:3:4:5:6:7:8', 'g::']
     prefixes = [str(k) for k in range(-1, 34)] + ['64', '127', '128', '129',
                                                  '', ' ', '08', '+8', 'x',
@@ -472,7 +485,7 @@ def address_grammar_family():
                     std = True
                 except ValueError:
                     std = False
-                if ':' in b or b.count('.') == 3:
+                if ':' in b or b.count('.') <= 3:
                     check('family/cidr-agrees-with-ipaddress',
                           bool(got) == std, detail=(s, got))
         got, e = never_raises(N.is_valid_cidr, b, 'cidr')
